@@ -174,3 +174,11 @@ Definition show_fulfill (sss : list string) (holds : list Z) : list string * lis
   let keys := map (fun s => fkeys_of_ss (hx s)) sss in
   let stages := fulfill_stages (rev (combine keys holds)) None in
   (map (fun a => xh (attr_bytes a)) stages, i_decode_fulfill keys (last stages attr_new)).
+
+(** what a receiving node sends back when it claims / fails a payment, optionally received through
+    a phantom hop ([ph] = "-" for none) *)
+Definition opt_fkeys (s : string) : option fkeys := if String.eqb s "-" then None else Some (fkeys_of_ss (hx s)).
+Definition show_claim (incoming ph : string) : string :=
+  xh (attr_bytes (claim_attribution ks_chacha hmac_sha256 (fkeys_of_ss (hx incoming)) (opt_fkeys ph))).
+Definition show_local_failure (incoming ph : string) (code : Z) (data : string) : string :=
+  show_err (local_failure ks_chacha hmac_sha256 (fkeys_of_ss (hx incoming)) (opt_fkeys ph) code (hx data)).
